@@ -16,7 +16,7 @@ def reply_programs(ctx):
             # every data mode appears: rotate forced modes through the corpus
             modes = [spec.DATA_MODES[(k + j) % len(spec.DATA_MODES)] for j in range(3)]
             # every fourth table stages "known name before new name" in one handlers list, declared before further names
-            spec.gen_reply_table(rng, p, force_modes=modes, stage_merge=(k % 4 == 1), stage_shared=(k % 4 == 3))
+            spec.gen_reply_table(rng, p, force_modes=modes, stage_merge=(k % 4 == 1), stage_shared=({3: "error", 7: "success"}.get(k % 8, False)))
             progs.append(p)
             k += 1
         out[f"r{b:02d}"] = progs
